@@ -117,7 +117,7 @@ func c15Row(c *c15Case) (req, impl, verdict string) {
 	if verdict == "" {
 		verdict = c15Verdict(c.steps, c.in, status, out)
 	}
-	if strings.Contains(verdict, "explained-by=ambiguous-keys") {
+	if strings.Contains(verdict, "explained-by=fields_set_default/ambiguous-keys") {
 		// replay the order dependence on the real code: distinct results over repeated runs
 		seen := map[string]bool{impl: true}
 		for i := 0; i < 64; i++ {
@@ -146,6 +146,27 @@ func c15Class(verdict string) string {
 
 // ---------- shrinking ----------
 
+// a smaller case is kept when it still fails, for a non-empty subset of the same quirks
+// (or is still unexplained / a glue failure)
+func c15SubClass(cl, of string) bool {
+	if cl == of {
+		return true
+	}
+	if !strings.HasPrefix(cl, "explained-by=") || !strings.HasPrefix(of, "explained-by=") {
+		return false
+	}
+	have := map[string]bool{}
+	for _, q := range strings.Split(strings.TrimPrefix(of, "explained-by="), "+") {
+		have[q] = true
+	}
+	for _, q := range strings.Split(strings.TrimPrefix(cl, "explained-by="), "+") {
+		if !have[q] {
+			return false
+		}
+	}
+	return true
+}
+
 func c15CopyCase(c *c15Case) *c15Case {
 	n := &c15Case{in: c15CloneSchemas(c.in, true)}
 	for _, st := range c.steps {
@@ -171,7 +192,9 @@ func c15CopyCase(c *c15Case) *c15Case {
 	return n
 }
 
-func c15SimpleType() ast.Type { return ast.Type{Kind: ast.KindScalar, Scalar: &ast.ScalarType{ScalarKind: ast.KindString}, Hints: ast.JenniesHints{}} }
+func c15SimpleType() ast.Type {
+	return ast.Type{Kind: ast.KindScalar, Scalar: &ast.ScalarType{ScalarKind: ast.KindString}, Hints: ast.JenniesHints{}}
+}
 
 // children of a type that can replace it / be dropped
 func c15ShrinkType(t ast.Type) []ast.Type {
@@ -394,8 +417,8 @@ func c15Shrink(c *c15Case, class string, budget int) *c15Case {
 			}
 			budget--
 			_, _, v := c15Row(n)
-			if c15Class(v) == class {
-				cur = n
+			if cl := c15Class(v); c15SubClass(cl, class) {
+				cur, class = n, cl
 				return true
 			}
 			return false
